@@ -1,19 +1,20 @@
 #!/bin/bash
 # C16 variant: the demonstration is a client program that must NOT compile on the clean tree and
 # DOES compile with the change. Prints suite_with_patch=.. demo_compiles_with_patch=.. demo_compiles_without_patch=..
-WT=$1; D=$2
+WT=$1; D=$2; FEAT=${3:-}
+FF=""; [ -n "$FEAT" ] && FF="--features $FEAT"
 export CARGO_TARGET_DIR=$WT/target CARGO_NET_OFFLINE=true
 cd $WT || exit 2
 git checkout -q -- . ; rm -f tests/seeded_demo.rs
 cp $D/demo.rs tests/seeded_demo.rs
-if cargo test --offline -q --no-run --test seeded_demo >/tmp/confirm_$$.log 2>&1; then A=yes; else A=no; fi
+if cargo test --offline -q --no-run --test seeded_demo $FF >/tmp/confirm_$$.log 2>&1; then A=yes; else A=no; fi
 CODES=$(grep -o "error\[E[0-9]*\]" /tmp/confirm_$$.log | sort -u | tr '\n' ' ')
 rm -f tests/seeded_demo.rs
 git apply $D/patch.diff || { echo "patch does not apply"; exit 2; }
 if cargo test --workspace --no-fail-fast --offline -q >/tmp/confirm_$$.log 2>&1; then S=pass; else S=fail; fi
 if cargo build --offline -q --features rayon,rustc-internal-api >/tmp/confirm_$$.log 2>&1; then S="$S+all-features-build"; fi
 cp $D/demo.rs tests/seeded_demo.rs
-if cargo test --offline -q --no-run --test seeded_demo >/tmp/confirm_$$.log 2>&1; then B=yes; else B=no; fi
+if cargo test --offline -q --no-run --test seeded_demo $FF >/tmp/confirm_$$.log 2>&1; then B=yes; else B=no; fi
 rm -f tests/seeded_demo.rs
 git checkout -q -- .
 echo "suite_with_patch=$S demo_compiles_with_patch=$B demo_compiles_without_patch=$A ($CODES)"
